@@ -940,7 +940,9 @@ def config_sweep(repo, seed=0, n=120):
     for case in range(n):
         algo = rng.choice(["naive", "priority", "priority-pool", "overbook", "starter"])
         tps = rng.choice([1, 2, 10, 100, 1000, 100000])
-        duration = rng.choice([0.0004, 0.5, 2, 15, 90]) if tps <= 1000 else rng.choice([0.000004, 0.001, 0.02])
+        # at most ~15 000 ticks per run, so that a child process of the sweep stays within its time budget
+        duration = rng.choice([0.0004, 0.5, 2, 15, 90]) if tps <= 100 else rng.choice([0.0004, 0.5, 2, 15]) if tps <= 1000 \
+            else rng.choice([0.000004, 0.001, 0.02])
         ip, qp, bp = rng.choice(triples)
         multi = rng.random() < 0.5
         params = dict(duration=duration, ticks_per_second=tps, scheduler_algo=algo, num_pools=2 if algo == "priority-pool" else rng.choice([1, 2, 4]),
